@@ -90,7 +90,7 @@ def _recover(so, acceptable, cfg, merge, where, stats, survivor_ix=None):
         if survivor_ix is not None:
             ix = survivor_ix
         else:
-            ix = FileStorage(INDEX_DIR, supports_mmap=not cfg.hide_fileno).open_index()
+            ix = FileStorage(INDEX_DIR, supports_mmap=(getattr(cfg, "mmap", True) and not cfg.hide_fileno)).open_index()
         gen = ix.latest_generation()
     except (SimAbort, SimKilled, HarnessError):
         raise
